@@ -8,6 +8,7 @@ import warnings
 import torch
 
 from . import common
+from .util_batch import same_values
 from .util_batch import ALGEBRA, DIM, DT, GROUPS, LTYPES, MANIFOLD, ltype_name, ltype_of, numel, pp
 
 
@@ -122,7 +123,7 @@ def stream_defaults(ctx, names=None):
                         bad = next((a, b) for a, b in zip(m, want[0]) if a != b) if len(m) == len(want[0]) else (m, want[0])
                         ctx.fail(case, f"defaults-meta: {label} with {dt} operands returns {bad[0]} when torch.set_default_dtype(torch.float64) is in force, "
                                        f"{bad[1]} under the stock default — the result's dtype must come from the operands, not from the process default")
-                    elif any(not torch.equal(torch.nan_to_num(a), torch.nan_to_num(b)) for a, b in zip(v, want[1])):
+                    elif any(not same_values(a, b) for a, b in zip(v, want[1])):
                         ctx.fail(case, f"defaults-values: {label} with {dt} operands returns other values under a float64 process default")
             # constructors WITHOUT dtype follow the default (documented: "uses a global default")
             for lt in LTYPES:
@@ -202,13 +203,13 @@ def stream_large(ctx):
             eps_list.append((f"{sk[0]}.{sk[1]}", spec["px"], sk, None))
         for ei, (label, lt, sk, fn) in enumerate(eps_list):
             if ctx.quick:
-                sizes = [2 ** 14 + 1] + ([2 ** 16 + 1] if ei % 8 == 0 or label.split(".")[1] in ("Jr", "euler", "jinvp") else [])
+                sizes = ([2 ** 14 + 1] if (ei + ctx.seed) % 2 == 0 else []) + ([2 ** 16 + 1] if ei % 16 == 0 else [])      # expensive entries: every second one per seed
                 # round 5 (class 34): one size beyond 2^17 with a non-trivial remainder for every block size 2^k, k ≤ 17 (all cheap entries; a sixth of the expensive ones, rotating with the seed)
                 op = label.split(".")[1]
                 cheap = op in ("Inv", "tensor", "quat2unit", "mul", "act3", "act4", "alg_add") or (lt in GROUPS and op in ("rotation", "translation", "scale", "euler")) \
                     or (lt in ("SO3", "RxSO3") and op in ("add", "retr"))            # < 0.05 s per call at this size: every seed
                 if cheap or (ei + ctx.seed) % 6 == 1:
-                    sizes = [2 ** 14 + 1, 2 ** 17 + 37]          # subsumes 2^16+1 (full batch vs tail block and single items)
+                    sizes = [2 ** 17 + 37] + ([2 ** 14 + 1] if ei % 3 == 0 else [])     # subsumes 2^16+1 and (mostly) 2^14+1: full batch vs tail block and single items
             else:
                 sizes = sizes_all + [2 ** 17 + 37, 2 ** 18 + 1, 2 ** 18 + 37, 2 ** 20 + 1]
             for n in sizes:
@@ -248,13 +249,13 @@ def stream_large(ctx):
                             ctx.fail(case, f"split-consistency: {label} on {n} items: output item {n - 64 + bad[-1]} (one of the last n % 2^k items) is "
                                            f"{full[n - 64 + bad[-1]].flatten()[:4].tolist()}, the op on the last 64 items alone gives {tail[bad[-1]].flatten()[:4].tolist()}")
                             continue
-                    cuts = (1, n // 2 + 1, n - 1) if not ctx.quick else ((n // 2 + 1, n - 1) if ei % 2 else (n // 2 + 1,))
+                    cuts = (1, n // 2 + 1, n - 1) if not ctx.quick else ((n // 2 + 1, n - 1) if ei % 4 == 0 else (n // 2 + 1,))
                     if n > 2 ** 17:
                         cuts = () if ctx.quick else (n // 2 + 1,)        # quick: the tail block and the single items below only
                     for a in cuts:
                         parts = torch.cat([g(0, a), g(a, n)])
-                        if parts.shape != full.shape or not torch.equal(torch.nan_to_num(parts), torch.nan_to_num(full)):
-                            pos = int((torch.nan_to_num(parts) != torch.nan_to_num(full)).reshape(n, -1).any(-1).nonzero()[0]) if parts.shape == full.shape else -1
+                        if parts.shape != full.shape or not same_values(parts, full):
+                            pos = int((~((parts == full) | (torch.isnan(parts) & torch.isnan(full)))).reshape(n, -1).any(-1).nonzero()[0]) if parts.shape == full.shape else -1
                             if pos < 0 or not c06._close(full[pos], parts[pos], dtype):
                                 ctx.fail(case, f"split-consistency: {label} on {n} items ≠ cat(f(x[:{a}]), f(x[{a}:])) — first differing item {pos}: "
                                                f"{full[pos].flatten()[:4].tolist() if pos >= 0 else full.shape} vs {parts[pos].flatten()[:4].tolist() if pos >= 0 else parts.shape}")
@@ -268,7 +269,7 @@ def stream_large(ctx):
                         xr = c06._lie(x.reshape(n, 1, -1).clone(), lt)
                         if sk is None:
                             r2 = c06._plain(fn(xr))
-                            if r2.shape[:2] != (n, 1) or not torch.equal(torch.nan_to_num(r2.reshape(full.shape)), torch.nan_to_num(full)):
+                            if r2.shape[:2] != (n, 1) or not same_values(r2.reshape(full.shape), full):
                                 ctx.fail(case, f"large: {label} on lshape ({n}, 1) differs from lshape ({n},)")
                 except Exception as e:
                     ctx.fail(case, f"raises: {label} on a batch of {n} items raises {type(e).__name__}: {str(e)[:80]}")
@@ -383,7 +384,7 @@ def stream_modeorder(ctx):
                         break
                 base = vals.get("plain")
                 for mode, v in vals.items():
-                    if base is not None and (v.shape != base.shape or not torch.equal(torch.nan_to_num(v), torch.nan_to_num(base))):
+                    if base is not None and (v.shape != base.shape or not same_values(v, base)):
                         ctx.fail(case, f"modeorder: {label} returns other values in mode `{mode}` than plain (call order {order}, batch length {n})")
                         break
 
@@ -442,7 +443,7 @@ def stream_subclass(ctx):
                             continue
                         ok = (isinstance(got, P.LieTensor) == isinstance(want, P.LieTensor)) and getattr(got, "ltype", None) is getattr(want, "ltype", None) \
                             and got.shape == want.shape and got.dtype == want.dtype \
-                            and torch.equal(torch.nan_to_num(c06._plain(got).detach()), torch.nan_to_num(c06._plain(want).detach()))
+                            and same_values(c06._plain(got).detach(), c06._plain(want).detach())
                         if not ok:
                             ctx.fail(case, f"subclass: {lt}.{op} on an operand of user class {cls.__name__} returns {type(got).__name__}/"
                                            f"{ltype_name(getattr(got, 'ltype', None))} — other type / ltype / values than for a LieTensor operand")
